@@ -105,7 +105,7 @@ func startReady(n *Node) error {
 		// on a loaded machine the 15 s the library allows may not be enough: as long as the
 		// process lives, keep waiting for its control socket
 		ok := false
-		for t0 := time.Now(); strings.Contains(err.Error(), "did not come up") && n.Alive() && time.Since(t0) < 60*time.Second; time.Sleep(100 * time.Millisecond) {
+		for t0 := time.Now(); strings.Contains(err.Error(), "did not come up") && n.Alive() && time.Since(t0) < 120*time.Second; time.Sleep(100 * time.Millisecond) {
 			if c, derr := net.DialTimeout("unix", n.Sock, time.Second); derr == nil {
 				c.Close()
 				ok = true
@@ -116,7 +116,7 @@ func startReady(n *Node) error {
 			return err
 		}
 	}
-	deadline := time.Now().Add(60 * time.Second)
+	deadline := time.Now().Add(120 * time.Second)
 	for time.Now().Before(deadline) {
 		if strings.Contains(n.Log(), "Initialization complete") {
 			return nil
@@ -126,7 +126,7 @@ func startReady(n *Node) error {
 		}
 		time.Sleep(20 * time.Millisecond)
 	}
-	return fmt.Errorf("receptor did not finish its initialization within 60 s")
+	return fmt.Errorf("receptor did not finish its initialization within 120 s")
 }
 
 func (e *env) teardown() {
@@ -254,7 +254,7 @@ func experiment(c *Ctx, dir string, sc scenario, cs *crashSpec, tag string) (*ob
 	daemonPid := a.Cmd.Process.Pid
 	o.Residents = newResidentObs()
 	lookAtResidents(a.Sock, o.Residents, false)
-	if e.b != nil && !waitPing(a.Sock, e.b.ID, 30*time.Second) {
+	if e.b != nil && !waitPing(a.Sock, e.b.ID, 90*time.Second) {
 		return nil, nil, 0, fmt.Errorf("node A never reaches node B")
 	}
 	var reply string
@@ -423,7 +423,7 @@ func experiment(c *Ctx, dir string, sc scenario, cs *crashSpec, tag string) (*ob
 					continue
 				}
 				cn.Close()
-				got, ended, err := WorkResults(a.Sock, r.Unit, 0, 6*time.Second)
+				got, ended, err := WorkResults(a.Sock, r.Unit, 0, 20*time.Second)
 				switch {
 				case err != nil:
 					o.DuringRestart = "refused:" + err.Error()
@@ -514,7 +514,7 @@ func experiment(c *Ctx, dir string, sc scenario, cs *crashSpec, tag string) (*ob
 	if o.Final.Listed || o.AtRestart.Listed {
 		wantOut := pattern[:sc.Plan.size()]
 		if o.Finished || complete(o.Final.State) {
-			got, ended, err := WorkResults(a.Sock, o.Unit, 0, 6*time.Second)
+			got, ended, err := WorkResults(a.Sock, o.Unit, 0, 20*time.Second)
 			switch {
 			case err != nil:
 				o.Results = "error:" + err.Error()
@@ -558,7 +558,7 @@ func experiment(c *Ctx, dir string, sc scenario, cs *crashSpec, tag string) (*ob
 		lookAtResidents(a.Sock, o.Residents, true)
 		if o.Results != "" {
 			wantOut := pattern[:sc.Plan.size()]
-			got, ended, err := WorkResults(a.Sock, o.Unit, 0, 6*time.Second)
+			got, ended, err := WorkResults(a.Sock, o.Unit, 0, 20*time.Second)
 			switch {
 			case err != nil:
 				o.Results2 = "error:" + err.Error()
@@ -698,8 +698,13 @@ func runAll(c *Ctx, sh *shared, tmp string) {
 	var mu sync.Mutex
 	var wg sync.WaitGroup
 	only := os.Getenv("C04_ONLY")
-	if err := makeResidents(c, filepath.Join(tmp, "template")); err != nil {
-		sh.im.Violate("the resident units (one per final state) could not be made: "+err.Error(), "harness-residents", nil)
+	err := makeResidents(c, filepath.Join(tmp, "template"))
+	if err != nil {
+		residents = nil
+		err = makeResidents(c, filepath.Join(tmp, "template-again"))
+	}
+	if err != nil {
+		inconclusive(sh.im, "the resident units (one per final state) could not be made", err.Error())
 		return
 	}
 	names := []string{}
@@ -717,8 +722,11 @@ func runAll(c *Ctx, sh *shared, tmp string) {
 			defer wg.Done()
 			_, hits, pid, err := experiment(c, filepath.Join(tmp, sc.Name, "enum"), sc, nil, fmt.Sprintf("e%d", si))
 			if err != nil {
+				_, hits, pid, err = experiment(c, filepath.Join(tmp, sc.Name, "enum-again"), sc, nil, fmt.Sprintf("f%d", si))
+			}
+			if err != nil {
 				sh.mu.Lock()
-				sh.im.Violate("scenario "+sc.Name+" could not be enumerated: "+err.Error(), "harness-scenario", sc)
+				inconclusive(sh.im, "enumeration of scenario "+sc.Name, err.Error())
 				sh.mu.Unlock()
 				return
 			}
@@ -743,13 +751,21 @@ func runAll(c *Ctx, sh *shared, tmp string) {
 	if only == "" || strings.Contains("remote-release-pending", only) {
 		var rwg sync.WaitGroup
 		rwg.Add(1)
-		go func() { defer rwg.Done(); runReleasePending(c, sh, filepath.Join(tmp, "release-pending")) }()
+		go func() {
+			defer rwg.Done()
+			guarded(sh, "remote-release-pending", func(s *shared, again string) {
+				runReleasePending(c, s, filepath.Join(tmp, "release-pending"+again))
+			})
+		}()
 		defer rwg.Wait()
 	}
 	if only == "" || strings.Contains("crowded-directory", only) {
 		var cwg sync.WaitGroup
 		cwg.Add(1)
-		go func() { defer cwg.Done(); runCrowded(c, sh, filepath.Join(tmp, "crowded")) }()
+		go func() {
+			defer cwg.Done()
+			guarded(sh, "crowded-directory", func(s *shared, again string) { runCrowded(c, s, filepath.Join(tmp, "crowded"+again)) })
+		}()
 		defer cwg.Wait()
 	}
 	// the file-system calls of one submission under strace, for a local and for a remote unit
@@ -772,14 +788,25 @@ func runAll(c *Ctx, sh *shared, tmp string) {
 			defer func() { <-sem }()
 			dir := filepath.Join(tmp, j.sc.Name, fmt.Sprintf("run%d", j.i))
 			o, _, _, err := experiment(c, dir, j.sc, &j.cs, fmt.Sprintf("r%d", j.i))
-			for try := 0; try < 2 && (err != nil || !o.Reached || o.HeldLate); try++ {
-				// a loaded machine can make a run miss its crash point, or its timing: again
+			for try := 0; try < 2 && (err != nil || !o.Reached || o.HeldLate || startTimeout(o) || slowQuery(o)); try++ {
+				// a loaded machine can make a run miss its crash point, or its timing, or keep a daemon
+				// from answering in the time the harness gives it: again, from scratch
 				o, _, _, err = experiment(c, fmt.Sprintf("%s-again%d", dir, try), j.sc, &j.cs, fmt.Sprintf("s%d%d", j.i, try))
 			}
 			sh.mu.Lock()
 			defer sh.mu.Unlock()
 			if err != nil {
-				sh.im.Violate(fmt.Sprintf("scenario %s crash %s could not run: %v", j.sc.Name, j.cs, err), "harness-scenario", j.cs)
+				if exitedAtStart(err.Error()) {
+					sh.im.Violate(fmt.Sprintf("scenario %s crash %s: %v", j.sc.Name, j.cs, err), "daemon-exits-at-start", j.cs)
+					return
+				}
+				// the harness could not run the experiment (its own setup): not a verdict
+				inconclusive(sh.im, fmt.Sprintf("scenario %s crash %s", j.sc.Name, j.cs), err.Error())
+				return
+			}
+			if startTimeout(o) {
+				// the daemon was alive, had logged no error and did not answer in the harness's time
+				inconclusive(sh.im, fmt.Sprintf("scenario %s crash %s", j.sc.Name, j.cs), o.AtRestart.Err)
 				return
 			}
 			sh.obs = append(sh.obs, o)
